@@ -6,6 +6,7 @@ mod util;
 mod text;
 mod codec;
 mod hc;
+mod ep;
 
 use std::io::{self, BufRead, Write};
 
@@ -27,6 +28,7 @@ fn main() {
         match mode.as_str() {
             "codec" => Box::new(codec::CodecMachine::new()),
             "hc" => Box::new(hc::HcMachine::new()),
+            "ep" => Box::new(ep::EpMachine::new()),
             _ => {
                 eprintln!("unknown mode {}", mode);
                 std::process::exit(2);
